@@ -191,13 +191,15 @@ Section Emit.
   Qed.
 
   (* every function, through the dispatch *)
-  Theorem emit_local_or_cont f i s o s' : dst_truthful i -> exec E f i s = (Ok o, s') -> loc E f o /\ is_builtin f = true.
+  Theorem emit_local_or_cont f i s o s' : (is_transfer_fn f = true -> dst_truthful i) ->
+    exec E f i s = (Ok o, s') -> loc E f o /\ is_builtin f = true.
   Proof.
     intros Hp H. unfold exec in H.
     repeat match type of H with
            | (if beqb f ?c then _ else _) _ = _ => destruct (beqb_spec f c) as [->|?]
            end;
       try (split; [|reflexivity]);
+      try (specialize (Hp eq_refl));
       eauto using c07_f_local_mint, c07_f_local_burn, c07_f_esdt_burn, c07_f_nft_create, c07_f_nft_add_quantity,
         c07_f_nft_burn, c07_f_nft_add_uri, c07_f_nft_update_attributes, c07_f_create_role_transfer, c07_f_change_owner,
         c07_f_claim_rewards, c07_f_set_user_name, c07_f_save_key_value, c07_f_freeze_wipe, c07_f_pause, c07_f_roles,
@@ -259,7 +261,8 @@ Section Collect.
   Qed.
 
   Theorem collect_not_handover sh f i id o s s' :
-    exec (env_at c sh) f i s = (Ok o, s') -> i_dst i = (wc_shard_of c (i_rcpt i) =? sh)%N -> f <> CRT ->
+    exec (env_at c sh) f i s = (Ok o, s') ->
+    (is_transfer_fn f = true -> i_dst i = (wc_shard_of c (i_rcpt i) =? sh)%N) -> f <> CRT ->
     forall m, In m (collect c sh f i id o) -> m_fn m <> CRT.
   Proof.
     intros H Hp Hne m Hin. destruct (emit_local_or_cont (env_at c sh) f i s o s' Hp H) as (Hl & Hb).
